@@ -78,6 +78,10 @@ let gen_eval (fn : string) (args : string list) : string =
     let r = rewrite_field (name_of_string (unbr g)) in
     law "no_field_method_clash" (not (is_reserved r));
     string_of_name r
+  | "GENONEOF", [ g ] ->
+    let r = rewrite_field (name_of_string (unbr g)) in
+    law "no_member_method_clash" (not (is_reserved r));
+    string_of_name r
   | "GENFEAT", [ feats; n3; flag ] -> outcome_string (unbr feats) (int_of_string n3) (flag = "msg")
   | "GENSAME", [ a; b ] ->
     (* same feature list in the same order => same bytes *)
